@@ -619,4 +619,68 @@ structure SourceShape where
   buildThenStore : Bool      -- `Generator.__init__` stores into `_DISPATCH_CACHE` a table that is already complete
   deriving DecidableEq, Repr
 
+
+/-! ### worker objects: per-run state must not be shared between calls in flight
+
+  `Tokenizer` / `Parser` / `Generator` instances carry per-run state (the generator's `_next_name` counter behind the
+  invented aliases `_t0, _t1, …`, `unsupported_messages`, the pretty-printing sentinels; the parser's cursor and
+  errors). A `Dialect` INSTANCE is shared configuration: applications resolve it once and pass it to every call from
+  every thread. The property therefore needs every call to own its worker. Model: a call of size `k` resets the
+  worker's counter and then `k` times reads the counter, emits it as a name and increments it; its result is the list
+  of names. With `cached = false` the worker is created by the call (the counter is private to the call in flight);
+  with `cached = true` one worker hangs on the shared Dialect instance and all threads use it (`shared`). -/
+namespace Workers
+
+structure WCfg where
+  cached : Bool
+
+structure WThread where
+  todo : List Nat                          -- sizes of the calls still to run (head = the one in flight, if any)
+  run : Option (Nat × Nat × List Nat)      -- in flight: bumps left, private counter, names emitted so far
+  results : List (List Nat)
+  deriving Repr, Inhabited
+
+structure WState where
+  shared : Nat                             -- the counter of the worker cached on the shared Dialect instance
+  threads : Tid → WThread
+
+def wset (s : WState) (t : Tid) (th : WThread) : WState :=
+  { s with threads := fun u => if u = t then th else s.threads u }
+
+def wstepRun (cfg : WCfg) (s : WState) (t : Tid) (th : WThread) (r c : Nat) (e : List Nat) : WState :=
+  match r with
+  | 0 => wset s t { th with run := none, todo := th.todo.tail, results := th.results ++ [e] }
+  | r' + 1 =>
+    if cfg.cached then
+      wset { s with shared := s.shared + 1 } t { th with run := some (r', c, e ++ [s.shared]) }
+    else wset s t { th with run := some (r', c + 1, e ++ [c]) }
+
+/-- one atomic step of thread `t`: start a call (reset), one read-emit-increment, or return -/
+def wstep (cfg : WCfg) (s : WState) (t : Tid) : Option WState :=
+  match (s.threads t).run with
+  | some (r, c, e) => some (wstepRun cfg s t (s.threads t) r c e)
+  | none =>
+    match (s.threads t).todo with
+    | [] => none
+    | k :: _ =>
+      if cfg.cached then some (wset { s with shared := 0 } t { (s.threads t) with run := some (k, 0, []) })
+      else some (wset s t { (s.threads t) with run := some (k, 0, []) })
+
+def winit (progs : Tid → List Nat) : WState :=
+  { shared := 0, threads := fun t => { todo := progs t, run := none, results := [] } }
+
+def wrun (cfg : WCfg) (s : WState) : List Tid → WState
+  | [] => s
+  | t :: ts =>
+    match wstep cfg s t with
+    | some s' => wrun cfg s' ts
+    | none => wrun cfg s ts
+
+def WComplete (s : WState) : Prop := ∀ t, (s.threads t).run = none ∧ (s.threads t).todo = []
+
+/-- what a call of size k returns when it runs alone: the names 0 … k-1 -/
+def wseq (prog : List Nat) : List (List Nat) := prog.map List.range
+
+end Workers
+
 end SqlglotModel.Threads
